@@ -73,6 +73,7 @@ Record icase := {
   c_topnamed : bool;             (* the directory Invoke is given (-d) is itself called magefiles *)
   c_ohf : bool;                  (* Magefiles(originalDir) found magefiles next to a magefiles directory *)
   c_crash : option nat;          (* Some k: killed after k steps *)
+  c_out : option (string * bytes * string);   (* -compile <out> inside the directory Invoke is given: (entry name, token of the binary, name it gets inside a directory) *)
   c_fs : fs;                     (* the directory before *)
   c_obs : obs
 }.
@@ -102,7 +103,11 @@ Definition model_invoke (c : icase) : obs :=
       {| ob_fs := crash_dir w f fl k (c_fs c); ob_exit := None; ob_stage := SAny; ob_calls := None |}
   | None =>
       let o := invoke_dir_full w f fl d in
-      let '(after, code) := invoke_named w f (c_flags c) (c_topnamed c) (c_ohf c) (c_fs c) in
+      let '(after0, code) := invoke_named w f (c_flags c) (c_topnamed c) (c_ohf c) (c_fs c) in
+      let after := match c_out c with
+                   | Some (n, bin, inner) => if compiled fl o then set n (install bin inner (lookup after0 n)) after0 else after0
+                   | None => after0
+                   end in
       {| ob_fs := after; ob_exit := Some code; ob_stage := stage_of (o_at o); ob_calls := Some (o_calls o) |}
   end.
 
